@@ -777,14 +777,19 @@ def run(tier, seed):
     return chk.finish(
         rule="every render() signature shape with n named parameters (positional-only / positional-or-keyword / keyword-only, defaults as a suffix "
              "resp. any subset, with/without *args and **kwargs, self/context positional-only or not) x every argument sequence up to length L over "
-             "{positional, each parameter name, unknown key, non-identifier key, reserved word, list spread, dict spread}, (n,L) in %s; plus seeded random "
-             "signatures up to 5 parameters x sequences up to 5 over a richer key alphabet (self/context/*args/**kwargs names, empty spreads, more reserved words); "
-             "validators called directly (both paths) on all shapes n<=3 and on the render() of the 7 built-in tags. "
+             "{positional, each parameter name, unknown key, non-identifier key, reserved word, list spread, dict spread}, (n,L) in %s; all shapes n<=2 x "
+             "sequences<=2 around spread mappings with a key None / 7 / ('t',); all shapes n<=3 (thorough 4) x structured longer calls (k positional arguments, "
+             "then every subset of the remaining keyword-capable parameters, then optionally an unknown key or the name of *args/**kwargs/self), on the fast path "
+             "and on the fallback; plus seeded random signatures up to 5 parameters x sequences up to 5 over a richer key alphabet (self/context/*args/**kwargs "
+             "names, empty spreads, more reserved words, non-str mapping keys, defaults on self/context). The real tag is a probe returning locals(), built in turn "
+             "as BaseNode subclass, via @template_tag (fast path) and with a callable object as render() (fallback path). "
+             "Validators called directly (both paths) on all shapes n<=3 and on the render() of the 7 built-in tags. "
              "Non-trivial = a default is applied, or a duplicate / unknown / non-identifier key is present. Distinct = distinct (signature, call)." % (plan,),
         explanation="theorems of Props/C11.v re-checked by coqc; py_bind and impl_bind evaluated by vm_compute inside Coq on every case and compared with "
                     "a real Python call resp. the real tag; the direct oracle compares tag and Python call without the model.",
         extra_trusted=["modelled, not verified: CPython's argument binding (compared with real calls on every case), "
-                       "str.isidentifier/keyword.iskeyword (ASCII model), the tag parser and resolve_params (inputs go through them, spreads are flattened in the model)"])
+                       "str.isidentifier/keyword.iskeyword (ASCII model; the theorems hold for any classification), the tag parser (inputs go through it); "
+                       "resolve_params is modelled as flattening of spreads + refusal of non-str mapping keys"])
 
 
 def replay(path):
